@@ -71,7 +71,12 @@ const upCertName = "up.test"
 var bedSeq int
 var bedMu sync.Mutex
 
-func proxyBin() string { return filepath.Join(verifRoot, "bin", "mosproxy.race") }
+func proxyBin() string {
+	if d := os.Getenv("VERIF_BINDIR"); d != "" {
+		return filepath.Join(d, "mosproxy.race")
+	}
+	return filepath.Join(verifRoot, "bin", "mosproxy.race")
+}
 
 // errBedSetup marks harness-side set-up problems (ports taken, ...): never a verdict about the proxy.
 type errBedSetup struct{ err error }
